@@ -250,6 +250,7 @@ typedef struct {
   int      tcp_write_mode;   /* 0 full, 1 random partial, 2 one byte */
   int      wblock_permille;  /* chance that a TCP write returns EWOULDBLOCK first */
   int      udp_wblock_permille; /* chance that a UDP send returns EWOULDBLOCK (socket buffer full) */
+  int      tfo_late_handshake;     /* a fast-open socket stays "connecting" for the server's connect delay after its first write */
   int      bsd_send_on_connecting; /* send() on a stream socket whose handshake is not finished fails with ENOTCONN (BSD, macOS, Windows) instead of EAGAIN (Linux) */
   int      fail_downgrade_resend; /* errno for the first datagram that re-sends a query whose last transmission was answered FORMERR without OPT (0: none) */
   uint8_t  local4[4];
@@ -710,7 +711,7 @@ static void vs_tcp_stream_in(int fd, const uint8_t *data, size_t n)
 static ares_ssize_t vs_sendto(ares_socket_t s, const void *buf, size_t len, int flags, const struct sockaddr *sa,
                               ares_socklen_t salen, void *ud)
 {
-  int      e;
+  int      e, tfo_first_late = 0;
   vsock_t *v;
   (void)flags;
   (void)salen;
@@ -789,6 +790,9 @@ static ares_ssize_t vs_sendto(ares_socket_t s, const void *buf, size_t len, int 
     v->conn           = VC_ESTABLISHED;
     v->ever_connected = 1;
     /* connection completes "later": library learns by write event */
+    if (sim_cfg.tfo_late_handshake && sim_srv[v->srv].tcp_connect_delay_ms > 0) {
+      tfo_first_late = 1; /* the data of this first write is taken; the socket then counts as connecting for a while */
+    }
   } else if (v->conn != VC_ESTABLISHED) {
     if (v->conn == VC_FAILED) {
       errno = ECONNREFUSED;
@@ -823,6 +827,11 @@ static ares_ssize_t vs_sendto(ares_socket_t s, const void *buf, size_t len, int 
     }
     v->sent_any = 1;
     vs_tcp_stream_in((int)s, (const uint8_t *)buf, n);
+    if (tfo_first_late && vsock[s].state == VS_OPEN) {
+      vsock[s].conn = VC_PENDING;
+      sim_ev_add(sim_now_us + (int64_t)sim_srv[vsock[s].srv].tcp_connect_delay_ms * 1000, EV_CONNECT_DONE, (int)s, 1, NULL);
+      sim_note("tcp_fastopen_handshake_completes_later");
+    }
     return (ares_ssize_t)n;
   }
 }
@@ -906,6 +915,10 @@ static ares_ssize_t vs_recvfrom(ares_socket_t s, void *buf, size_t len, int flag
     return (ares_ssize_t)n;
   }
   /* TCP: hand out bytes according to the segmentation mode */
+  if (v->conn == VC_PENDING && v->ever_connected) {
+    /* fast-open socket whose handshake was still counted as outstanding: data from the server means it is over */
+    v->conn = VC_ESTABLISHED;
+  }
   {
     size_t avail = p->len - p->off;
     size_t n     = avail < len ? avail : len;
